@@ -1,10 +1,10 @@
-import LoguruModel.Markup.Spec
+import LoguruModel.Markup.Lemmas
 /-
 C06 – property theorems (only the theorems, the small lemmas they need, and non-vacuity examples).
 The tables `Markup.Gen.*` are regenerated from `/repo/loguru/_colorizer.py` on every run.
 -/
 namespace C06
-open Py Markup Markup.Gen Markup.Spec
+open Py Markup Markup.Gen Markup.Spec Markup.Lemmas
 
 /-! ## Table theorems (tie G) -/
 
@@ -44,5 +44,361 @@ theorem templates :
     tmpl8 = ["\x1b[".toList, ";5;".toList, "m".toList] ∧
     tmpl24 = ["\x1b[".toList, ";2;".toList, ";".toList, ";".toList, "m".toList] ∧
     levelTags = ["level".toList, "lvl".toList] := by decide +kernel
+
+/-- every sequence `_get_ansicode` can produce – table entry, 8-bit, hex or r,g,b form, for ANY tag text – has
+the shape `ESC [ [0-9;]* m`, i.e. is removed entirely by the property's `\x1b\[[0-9;]*m` -/
+theorem ansi_shape (tag a : Str) (h : getAnsiCode tag = some a) : IsSgr a := getAnsiCode_isSgr tag a h
+
+/-- no generated sequence contains a brace, so the later `format_map` on the colourised format cannot see it -/
+theorem ansi_brace_free (tag a : Str) (h : getAnsiCode tag = some a) : '{' ∉ a ∧ '}' ∉ a := by
+  obtain ⟨body, rfl, hb⟩ := ansi_shape tag a h
+  constructor <;>
+  · intro hm
+    simp only [List.mem_cons, List.mem_append, List.not_mem_nil, or_false] at hm
+    rcases hm with hm | hm | hm | hm
+    · exact absurd hm (by decide)
+    · exact absurd hm (by decide)
+    · have := hb _ hm; revert this; decide
+    · exact absurd hm (by decide)
+
+example : getAnsiCode "fg #00005f".toList = some "\x1b[38;2;0;0;95m".toList := by decide +kernel
+example : getAnsiCode "bg 72,119,65".toList = some "\x1b[48;2;72;119;65m".toList := by decide +kernel
+example : getAnsiCode "fg 256".toList = none := by decide +kernel
+
+/-! ## The scanner -/
+
+/-- the scanner (= `finditer` of the tag regex) cuts the text into literal pieces and tags without losing
+or inventing a character: re-assembling the segments gives the text back, for every text -/
+theorem scan_lossless (s : Str) : unscan (scan s).1 (scan s).2 = s := Lemmas.scan_lossless s
+
+/-- escape rule: 2k+1 backslashes before a tag print k backslashes and the tag literally, nothing is
+interpreted and the tag stack is untouched … -/
+theorem escape_semantics_odd (p : P) (pre inner : Str) (k : Nat) :
+    feedSeg p ⟨pre, 2 * k + 1, inner⟩ =
+      .ok { tokens := p.tokens ++ [.text pre, .text (bs k ++ ('<' :: inner ++ ['>']))], stack := p.stack } := by
+  have h1 : (2 * k + 1) % 2 = 1 := by omega
+  have h2 : (2 * k + 1) / 2 = k := by omega
+  simp [feedSeg, h1, h2]
+
+/-- … 2k backslashes print k backslashes and the tag is interpreted -/
+theorem escape_semantics_even (p : P) (pre inner : Str) (k : Nat) :
+    feedSeg p ⟨pre, 2 * k, inner⟩ =
+      feedTag { tokens := p.tokens ++ .text pre :: (if k > 0 then [.text (bs k)] else []), stack := p.stack } inner := by
+  have h1 : (2 * k) % 2 = 0 := by omega
+  have h2 : (2 * k) / 2 = k := by omega
+  have h3 : (2 * k > 0) = (k > 0) := by simp
+  simp [feedSeg, h1, h2]
+
+example : parse "\\\\\\<b>x".toList = .ok [.text [], .text "\\<b>".toList, .text "x".toList] := by decide +kernel
+example : parse "\\\\<b>x</b>".toList =
+    .ok [.text [], .text "\\".toList, .ansi "\x1b[1m".toList, .text "x".toList, .closing, .text []] := by decide +kernel
+
+/-! ## Same visible text -/
+
+/-- the colourised rendering of ANY token list with its SGR sequences removed is the stripped rendering
+(tokens clean = text tokens without ESC, ANSI tokens of SGR shape; level colour = SGR sequences) -/
+theorem strip_eq_visible_tokens (toks : List Tok) (lvl out : Str) (hc : ∀ t ∈ toks, TokClean t)
+    (hl : IsSgrSeq lvl) (h : colorize toks (some lvl) = .ok out) : unansi out = strip toks :=
+  unansi_colorize toks lvl out hc hl h
+
+/-- for every ESC-free text that parses, every level colour made of SGR sequences:
+`re.sub("\x1b\[[0-9;]*m", "", colorize(tokens, level)) == strip(tokens)` -/
+theorem strip_eq_visible (feeds : List (Str × Bool)) (p : P) (strict : Bool) (toks : List Tok) (lvl out : Str)
+    (hf : ∀ f ∈ feeds, NoEsc f.1) (hl : IsSgrSeq lvl)
+    (hp : feedMany {} feeds = .ok p) (hd : done p strict = .ok toks)
+    (h : colorize toks (some lvl) = .ok out) : unansi out = strip toks := by
+  have hclean : ∀ (fs : List (Str × Bool)) (q q' : P), Clean q → (∀ f ∈ fs, NoEsc f.1) →
+      feedMany q fs = .ok q' → Clean q' := by
+    intro fs
+    induction fs with
+    | nil => intro q q' hq _ h; simp [feedMany] at h; subst h; exact hq
+    | cons f r ih =>
+      intro q q' hq hn h
+      obtain ⟨t, raw⟩ := f
+      simp only [feedMany] at h
+      split at h
+      · rename_i q1 h1
+        exact ih q1 q' (clean_feed q q1 t raw hq (hn (t, raw) (by simp)) h1) (fun f hf => hn f (by simp [hf])) h
+      · cases h
+  have hc := hclean feeds {} p clean_init hf hp
+  unfold done at hd
+  split at hd
+  · cases hd
+  · injection hd with hd; subst hd
+    exact unansi_colorize _ lvl out hc.toks hl h
+
+example : (do let p ← feedMany {} [("<red>a".toList, false), ("<b>".toList, true), ("</red>".toList, false)]
+              let t ← done p; colorize t (some "\x1b[1m".toList)) =
+    .ok "\x1b[31ma<b>\x1b[0m".toList := by decide +kernel
+
+/-! ## Characters are styled by their enclosing tags -/
+
+/-- THE INVARIANT: after any sequence of `feed` calls (raw or not, any texts), the SGR state produced by
+the tokens emitted so far – sequences append, the CLOSING reset clears – equals the codes of the current
+tag stack, oldest first.  Opening appends; closing resets and re-emits what remains. -/
+theorem sgr_state_is_tag_stack (lvl : List Str) (feeds : List (Str × Bool)) (p : P)
+    (hp : feedMany {} feeds = .ok p) :
+    sgrState lvl [] p.tokens = codes lvl p.colorTokens := by
+  have hinv : ∀ (fs : List (Str × Bool)) (q q' : P), Inv lvl q → feedMany q fs = .ok q' → Inv lvl q' := by
+    intro fs
+    induction fs with
+    | nil => intro q q' hq h; simp [feedMany] at h; subst h; exact hq
+    | cons f r ih =>
+      intro q q' hq h
+      obtain ⟨t, raw⟩ := f
+      simp only [feedMany] at h
+      split at h
+      · rename_i q1 h1
+        exact ih q1 q' (inv_feed lvl q q1 t raw hq h1) h
+      · cases h
+  exact (hinv feeds {} p (inv_init lvl) hp).state
+
+/-- one step of it, spelled out: an opening tag appends exactly its code to the state … -/
+theorem open_appends (lvl : List Str) (p p' : P) (tag a : Str) (hs : tag.head? ≠ some '/')
+    (hl : levelTags.contains tag = false) (ha : getAnsiCode tag = some a) (h : feedTag p tag = .ok p') :
+    sgrState lvl [] p'.tokens = sgrState lvl [] p.tokens ++ [a] ∧ p'.stack = (tag, .ansi a) :: p.stack := by
+  unfold feedTag at h
+  split at h
+  · simp at hs
+  · simp only [hl, ha] at h
+    simp at h
+    subst h
+    simp [sgrState_append, sgrState, tokCodes]
+
+/-- … and a closing tag leaves the state equal to the codes of the remaining stack (outer styles restored) -/
+theorem close_restores (lvl : List Str) (p p' : P) (tag : Str) (hi : Inv lvl p)
+    (h : feedTag p ('/' :: tag) = .ok p') :
+    ∃ top, p.stack = top :: p'.stack ∧ (tag = [] ∨ tag = top.1) ∧
+      sgrState lvl [] p'.tokens = codes lvl (p'.stack.reverse.map (·.2)) := by
+  have hi' := inv_feedTag lvl p p' _ hi h
+  unfold feedTag at h
+  simp only at h
+  split at h
+  · rename_i top tk below hst
+    split at h
+    · rename_i hc
+      injection h with h; subst h
+      refine ⟨(top, tk), hst, ?_, hi'.state⟩
+      simp at hc
+      rcases hc with hc | hc
+      · exact Or.inl hc
+      · exact Or.inr hc
+    · cases h
+  · cases h
+
+/-! ## Arguments and values are never interpreted -/
+
+/-- text fed with `raw=True` (formatting arguments, the re-serialised `{field}` text of a format) becomes
+one TEXT token whatever it contains; the tag stack is untouched -/
+theorem args_and_values_never_interpreted (p : P) (v : Str) :
+    feed p v true = .ok { tokens := p.tokens ++ [.text v], stack := p.stack } := by
+  simp [feed]
+
+/-! ## The two handlers print the same visible text -/
+
+/-- FULL STATEMENT of the first half of C06 at handler level: for every format (as chunks of
+`Formatter.parse`), every coloured message (as its feeds), every level colour and field values, the
+colourising handler's output with SGR sequences removed is the non-colourising handler's output.
+It is FALSE of the current code (known finding F10) – see `handler_visible_text_equal_statement_false`. -/
+def handler_visible_text_equal_statement : Prop :=
+  ∀ (chunks : List Chunk) (feeds : List (Str × Bool)) (lvl : Str) (vals : List Str) (outC outP : Str),
+    (∀ c ∈ chunks, NoEsc c.lit) → (∀ f ∈ feeds, NoEsc f.1) → (∀ v ∈ vals, NoEsc v) → IsSgrSeq lvl →
+    handlerPair chunks feeds lvl vals = .ok (outC, outP) → unansi outC = outP
+
+/-- the guard: every `{message}` field of the format has an empty format spec (a conversion on it is refused
+by the model, hence excluded by the success hypothesis) -/
+def MessageFieldsPlain (chunks : List Chunk) : Prop :=
+  ∀ c ∈ chunks, ∀ f, c.field = some f → f.isMessage = true → f.spec = []
+
+/-- PARTIAL (what holds of the current code): under the guard, for every format, message, level colour and
+field values, both handlers print the same visible text -/
+theorem handler_visible_text_equal_partial
+    (chunks : List Chunk) (feeds : List (Str × Bool)) (lvl : Str) (vals : List Str) (outC outP : Str)
+    (hg : MessageFieldsPlain chunks)
+    (hc : ∀ c ∈ chunks, NoEsc c.lit) (hf : ∀ f ∈ feeds, NoEsc f.1) (hv : ∀ v ∈ vals, NoEsc v) (hl : IsSgrSeq lvl)
+    (h : handlerPair chunks feeds lvl vals = .ok (outC, outP)) : unansi outC = outP := by
+  unfold handlerPair at h
+  split at h
+  · cases h
+  · rename_i ftoks msgs hprep
+    split at h
+    · cases h
+    · rename_i p hp
+      split at h
+      · cases h
+      · rename_i mt hd
+        obtain ⟨c1, c2, c3⟩ := prepareChunks_clean [] chunks ftoks msgs (by intro e he; cases he) hc hprep
+        have hclean : ∀ (fs : List (Str × Bool)) (q q' : P), Clean q → (∀ f ∈ fs, NoEsc f.1) →
+            feedMany q fs = .ok q' → Clean q' := by
+          intro fs
+          induction fs with
+          | nil => intro q q' hq _ h; simp [feedMany] at h; subst h; exact hq
+          | cons f r ih =>
+            intro q q' hq hn h
+            obtain ⟨t, raw⟩ := f
+            simp only [feedMany] at h
+            split at h
+            · rename_i q1 h1
+              exact ih q1 q' (clean_feed q q1 t raw hq (hn (t, raw) (by simp)) h1) (fun f hf => hn f (by simp [hf])) h
+            · cases h
+        have hmt : ∀ t ∈ mt, TokClean t := by
+          have := hclean feeds {} p clean_init hf hp
+          unfold done at hd
+          split at hd
+          · cases hd
+          · injection hd with hd; subst hd; exact this.toks
+        have hgf : MessagePlain ftoks := by
+          intro f hfm him
+          obtain ⟨c, hcm, e⟩ := c3 f hfm
+          exact hg c hcm f e him
+        split at h
+        · rename_i oc op hrc hrp
+          injection h with h; injection h with h1 h2; subst h1; subst h2
+          exact render_visible_eq lvl mt ftoks msgs vals _ _ hl hmt c1 c2 hv hgf hrc hrp
+        · cases h
+        · cases h
+
+/-- the F10 witness: format `[{message:>10}]`, message `<red>ab</red>` -/
+def f10Chunks : List Chunk :=
+  [⟨"[".toList, some ⟨"message".toList, none, ">10".toList⟩⟩, ⟨"]\n".toList, some ⟨"exception".toList, none, []⟩⟩]
+
+/-- WITNESS (replayed on the implementation by the harness on every run): the colourising handler pads the
+string that already contains the SGR sequences, so its visible text is `[ab]`, the plain handler prints
+`[        ab]` -/
+theorem padded_message_witness :
+    handlerPair f10Chunks [("<red>ab</red>".toList, false)] "\x1b[1m".toList [[]] =
+      .ok ("[\x1b[31mab\x1b[0m]\n".toList, "[        ab]\n".toList) ∧
+    unansi "[\x1b[31mab\x1b[0m]\n".toList = "[ab]\n".toList := by decide +kernel
+
+/-- hence the full statement is false of the current code -/
+theorem handler_visible_text_equal_statement_false : ¬ handler_visible_text_equal_statement := by
+  intro h
+  have hw := padded_message_witness
+  have := h f10Chunks [("<red>ab</red>".toList, false)] "\x1b[1m".toList [[]] _ _
+    (by decide) (by decide) (by decide) ⟨["\x1b[1m".toList], by decide, by
+      intro a ha; simp at ha; subst ha; exact ⟨['1'], by decide, by decide⟩⟩ hw.1
+  rw [hw.2] at this
+  revert this; decide
+
+example : MessageFieldsPlain [⟨"<red>".toList, some ⟨"message".toList, none, []⟩⟩, ⟨"</red>".toList, none⟩] := by
+  intro c hc f hf _
+  simp at hc
+  rcases hc with rfl | rfl
+  · injection hf with hf; subst hf; rfl
+  · cases hf
+
+example : handlerPair [⟨"<red>".toList, some ⟨"message".toList, none, []⟩⟩, ⟨" </red>x".toList, none⟩]
+    [("<b>a</b>b".toList, false)] "".toList [] =
+    .ok ("\x1b[31m\x1b[1ma\x1b[0m\x1b[31mb \x1b[0mx".toList, "ab x".toList) := by decide +kernel
+
+/-! ## The format's styles are re-applied inside the message -/
+
+/-- `wrap` as a token transformation: after every CLOSING of the message the format's colour tokens at the
+`{message}` field are emitted again -/
+def wrapToks (outer : List Tok) : List Tok → List Tok
+  | [] => []
+  | .closing :: r => .closing :: (outer ++ wrapToks outer r)
+  | t :: r => t :: wrapToks outer r
+
+theorem wrap_eq_wrapToks (lvl : Str) (outer toks : List Tok) :
+    wrap lvl outer toks = ((wrapToks outer toks).map (Tok.valueL lvl)).flatten := by
+  induction toks with
+  | nil => rfl
+  | cons t r ih => cases t <;> simp [wrap, wrapToks, ih, Tok.valueL, Tok.value]
+
+/-- for a format whose `{message}` field sits under colour tokens `outer` (any stack) and ANY coloured
+message: at every point of the message the SGR state is `codes outer ++ (state of the message alone)`;
+in particular after a closing tag inside the message the outer styles are in force again, and at the end
+of a well-formed message the state is exactly the format's own stack again. -/
+theorem message_in_format_keeps_outer_styles (lvl : List Str) (outer toks : List Tok) (x : List Str)
+    (ho : ∀ t ∈ outer, Tok.isColor t = true) :
+    sgrState lvl (codes lvl outer ++ x) (wrapToks outer toks) = codes lvl outer ++ sgrState lvl x toks := by
+  induction toks generalizing x with
+  | nil => rfl
+  | cons t r ih =>
+    cases t with
+    | text s => simp only [wrapToks, sgrState]; exact ih x
+    | ansi a =>
+      simp only [wrapToks, sgrState, tokCodes]
+      rw [List.append_assoc]; exact ih (x ++ [a])
+    | level =>
+      simp only [wrapToks, sgrState, tokCodes]
+      rw [List.append_assoc]; exact ih (x ++ lvl)
+    | closing =>
+      simp only [wrapToks, sgrState]
+      rw [sgrState_append, sgrState_colors lvl [] outer ho]
+      have := ih []
+      simpa using this
+
+/-- … combined with the invariant: inside a parsed message the state is `outer ++ message stack` -/
+theorem message_state (lvl : List Str) (outer : List Tok) (feeds : List (Str × Bool)) (p : P)
+    (ho : ∀ t ∈ outer, Tok.isColor t = true) (hp : feedMany {} feeds = .ok p) :
+    sgrState lvl (codes lvl outer) (wrapToks outer p.tokens) = codes lvl outer ++ codes lvl p.colorTokens := by
+  have := message_in_format_keeps_outer_styles lvl outer p.tokens [] ho
+  simp only [List.append_nil] at this
+  rw [this, sgr_state_is_tag_stack lvl feeds p hp]
+
+/-! ## Per-level cache follows the level colours -/
+
+theorem find_assoc_same {α} (k : Str) (v : α) (l : List (Str × α)) : find? k (assoc k v l) = some v := by
+  induction l with
+  | nil => simp [assoc, find?]
+  | cons e r ih =>
+    obtain ⟨k', v'⟩ := e
+    simp only [assoc]
+    split
+    · simp [find?]
+    · rename_i hne; simp [find?, hne, ih]
+
+theorem find_assoc_other {α} (k k2 : Str) (v : α) (l : List (Str × α)) (h : k2 ≠ k) :
+    find? k2 (assoc k v l) = find? k2 l := by
+  induction l with
+  | nil => simp [assoc, find?]; intro e; exact (h e.symm).elim
+  | cons e r ih =>
+    obtain ⟨k', v'⟩ := e
+    simp only [assoc]
+    split
+    · rename_i heq
+      have : k' = k := by simpa using heq
+      subst this
+      have hne : ¬ (k' == k2) = true := by simpa using (fun e => h e.symm)
+      simp [find?, hne]
+    · by_cases hk : (k' == k2) = true
+      · simp [find?, hk]
+      · simp [find?, hk, ih]
+
+/-- after ANY history of `level(name, color=…)` calls, the cached pre-colourised format of every level is
+`colorize(format tokens, ansify(current colour of that level))` – `update_format` keeps the cache in step -/
+theorem precolorized_follows_level_color (toks : List Tok) (ops : List (Str × Str)) (c : Cache)
+    (h : levelOps toks {} ops = .ok c) :
+    ∀ name, find? name c.pre = (find? name c.ansi).map (fun a => colorize toks (some a)) := by
+  have gen : ∀ (ops : List (Str × Str)) (c0 c : Cache),
+      (∀ name, find? name c0.pre = (find? name c0.ansi).map (fun a => colorize toks (some a))) →
+      levelOps toks c0 ops = .ok c →
+      ∀ name, find? name c.pre = (find? name c.ansi).map (fun a => colorize toks (some a)) := by
+    intro ops
+    induction ops with
+    | nil => intro c0 c h0 h; simp [levelOps] at h; subst h; exact h0
+    | cons op r ih =>
+      intro c0 c h0 h
+      obtain ⟨n, col⟩ := op
+      simp only [levelOps] at h
+      split at h
+      · rename_i c1 h1
+        refine ih c1 c ?_ h
+        unfold levelOp at h1
+        split at h1
+        · cases h1
+        · rename_i a ha
+          injection h1 with h1; subst h1
+          intro name
+          by_cases hn : name = n
+          · subst hn; simp [find_assoc_same]
+          · simp [find_assoc_other _ _ _ _ hn, h0 name]
+      · cases h
+  exact gen ops {} c (by intro name; simp [find?]) h
+
+example : (levelOps [.level, .text "x".toList] {} [("INFO".toList, "<red>".toList), ("INFO".toList, "<blue>".toList)]).map
+    (fun c => find? "INFO".toList c.pre) = .ok (some (.ok "\x1b[34mx".toList)) := by decide +kernel
 
 end C06
